@@ -18,6 +18,14 @@ Proof.
 Qed.
 
 (** C04_nowedge: an active transmitter always has something that will make it move. *)
+(** Wait frames are counted per message: in every reachable state in which no First Frame is awaiting its Flow Control and no block is
+    being transmitted - idle, or the first frame still held by the rate limiter - the count is zero.  Together with [wait_accepted]
+    (each accepted Wait adds one) and [wait_max_reached] (the abort needs a count of wftmax), a message is abandoned for too many Wait
+    frames only when more than wftmax of them were accepted since ITS First Frame. *)
+Theorem wait_count_per_message c s : reachable c s ->
+  tx_state s <> TxWaitFC -> tx_state s <> TxTransmitCF -> wft_counter s = 0.
+Proof. intros Hr. apply reachable_WF in Hr. exact (wf_wft c s Hr). Qed.
+
 Theorem nowedge c s : reachable c s -> tx_state s <> TxIdle ->
   (tx_state s = TxWaitFC /\ timer_running (timer_rx_fc s) = true /\
      t_timeout (timer_rx_fc s) = p_tbs_ns (c_p c)) \/
